@@ -123,13 +123,14 @@ def float_json(x: float) -> Dict[str, Any]:
     """The constant as the model wants it: the structure of the text CPython's repr prints."""
     r = repr(x)
     if r in ("inf", "-inf", "nan"):
-        return {"k": "float", "special": r}
+        return {"k": "float", "bits": str(bits_of(x)), "special": r}
     m = _REPR.match(r)
     if not m:
         return {"k": "float", "unparsed": r}
     sign, ip, fp, es, ed = m.groups()
     return {
         "k": "float",
+        "bits": str(bits_of(x)),
         "fin": {
             "neg": sign == "-",
             "ip": [int(c) for c in ip],
@@ -789,10 +790,7 @@ def unit_stream(ctx, consts: List[Tuple[Any, str]], label: str = "unit") -> List
             rec["i"] = len(reqs)
             reqs.append({"op": "const", "c": cj})
             reqs.append({"op": "spec", "c": cj, "out": out_json(r)})
-            if type(v) is float and "ok" in r:
-                reqs.append({"op": "rounds", "text": cp(r["ok"]["text"]), "bits": str(bits_of(v))})
-            else:
-                reqs.append({"op": "hyp", "s": []})
+            reqs.append({"op": "reprok", "c": cj})  # the facts trusted about repr(float), on this float
         recs.append(rec)
     ans = ctx.driver(DRIVER, reqs)
     for rec in recs:
@@ -821,14 +819,9 @@ def unit_stream(ctx, consts: List[Tuple[Any, str]], label: str = "unit") -> List
                 observed=r,
                 how="func_adl_xAOD.<backend>.query_ast_visitor.<visitor>().get_rep(ast.Constant(value)) -> rep.as_cpp(), rep.cpp_type()",
             )
-        if type(v) is float and "ok" in r and not x.get("holds", False):
-            ctx.violation(
-                key=f"const:float:{v!r}:rounds",
-                what=f"the literal emitted for the float {v!r} does not round to that float (exact binary64 round-to-nearest-even check)",
-                case=case,
-                observed=r,
-                how="compare the exact decimal value of the emitted text with the 64 bits of the constant",
-            )
+        if not x.get("holds", False):
+            # not a defect of /repo: the assumption about CPython (repr grammar, repr rounds back) fails on this float
+            ctx.disagreement("repr-faithful", case, "repr(x) is of the grammar [-]d+[.d+][e(+|-)d+] and rounds to x", repr(v))
         cm = canon_model(m)
         ri = {"ok": r["ok"]} if "ok" in r else {"err": r["err"]}
         if cm != ri:
@@ -1271,6 +1264,33 @@ def lexer_validation(ctx, thorough: bool):
         d = lex_matches_gpp(k, lx, res["out"].get(i))
         if d is not None:
             ctx.disagreement("lean-lexer-vs-g++", {"stream": "lexer", "text": t}, "agree", d)
+    # the rounding oracle (roundsTo) against CPython's correctly rounded float(): positive and negative controls
+    from decimal import Decimal, getcontext
+
+    getcontext().prec = 1200
+    ctl: List[Tuple[str, int, bool]] = []
+    xs = [x for x in FLOAT_EDGES if x == x] + [gen_finite_float(ctx.rng) for _ in range(300 if thorough else 60)]
+    for x in xs:
+        up, dn = math.nextafter(x, math.inf), math.nextafter(x, -math.inf)
+        ctl.append((repr(x), bits_of(x), True))
+        for y in (up, dn):
+            if y not in (math.inf, -math.inf) and bits_of(y) != bits_of(x):
+                ctl.append((repr(y), bits_of(x), False))
+                mid = (Decimal(x) + Decimal(y)) / 2  # exact tie: goes to the neighbour with the even mantissa
+                t = format(mid, "e") if mid != 0 else None
+                if t is not None and "Infinity" not in t and "NaN" not in t:
+                    t = t.replace("E", "e")
+                    z = float(t)
+                    if z not in (math.inf, -math.inf):
+                        ctl.append((t, bits_of(z), True))
+                        ctl.append((t, bits_of(y if bits_of(z) == bits_of(x) else x), False))
+    ra = ctx.driver(DRIVER, [{"op": "rounds", "text": cp(t), "bits": str(b)} for t, b, _ in ctl])
+    for (t, b, want), a in zip(ctl, ra):
+        if "bad" in a:
+            continue
+        ctx.count("rounding-oracle-control:" + ("positive" if want else "negative"))
+        if a.get("holds") != want:
+            ctx.disagreement("lean-roundsTo-vs-cpython", {"stream": "lexer", "text": t, "bits": str(b)}, f"roundsTo = {a.get('holds')}", f"CPython float(): {want}")
     if thorough:
         rej = ctx.driver(DRIVER, [{"op": "lexstr", "text": cp(t), "tri": False} for t in LEXER_REJECTS])
         for t, lx in zip(LEXER_REJECTS, rej):
